@@ -342,12 +342,38 @@ struct Ctor {
 }
 
 fn value_params(sig: &Signature) -> Vec<(String, String)> {
+    // a generic parameter (or `impl Trait`) bounded by RangeBounds<u32> is shown as the pseudo-type "RangeBounds<u32>":
+    // the generated wrapper instantiates it with every kind of range expression
+    let mut range_generics: Vec<String> = vec![];
+    for gp in sig.generics.type_params() {
+        if tokens_of(&gp.bounds).replace(' ', "").contains("RangeBounds<u32>") {
+            range_generics.push(gp.ident.to_string());
+        }
+    }
+    if let Some(w) = &sig.generics.where_clause {
+        for pr in &w.predicates {
+            let t = tokens_of(pr).replace(' ', "");
+            if t.contains("RangeBounds<u32>") {
+                if let Some((lhs, _)) = t.split_once(':') {
+                    range_generics.push(lhs.to_string());
+                }
+            }
+        }
+    }
+    let fix = |t: String| -> String {
+        let flat = t.replace(' ', "");
+        if range_generics.contains(&flat) || flat.contains("implRangeBounds<u32>") || flat.contains("implstd::ops::RangeBounds<u32>") {
+            "RangeBounds<u32>".to_string()
+        } else {
+            t
+        }
+    };
     sig.inputs
         .iter()
         .filter_map(|a| match a {
             FnArg::Typed(t) => match &*t.pat {
-                Pat::Ident(i) => Some((i.ident.to_string(), type_str(&t.ty))),
-                _ => Some(("?".into(), type_str(&t.ty))),
+                Pat::Ident(i) => Some((i.ident.to_string(), fix(type_str(&t.ty)))),
+                _ => Some(("?".into(), fix(type_str(&t.ty)))),
             },
             _ => None,
         })
@@ -678,7 +704,7 @@ pub fn translate(repo: &Path) -> Output {
         add(&f.ty, &f.state, &mut states);
     }
     let modname = |ty: &str| if ty == "FetchCommand" { "fetch" } else { "select" };
-    let mut r = String::from("// GENERATED by tools/rs2coq from imap-proto/src/builders/command.rs: one arm per (typestate, method) of the current source.\n#![allow(non_camel_case_types, dead_code, unused_variables, clippy::all)]\nuse imap_proto::builders::command::*;\nuse imap_proto::types::*;\n\n#[derive(Clone, Debug)]\npub enum Arg {\n    Num(u64),\n    Range(u64, u64),\n    RangeFrom(u64),\n    Kw(String),\n    Str(String),\n}\n\npub enum St {\n    Done(Command),\n");
+    let mut r = String::from("// GENERATED by tools/rs2coq from imap-proto/src/builders/command.rs: one arm per (typestate, method) of the current source.\n#![allow(non_camel_case_types, dead_code, unused_variables, clippy::all)]\nuse imap_proto::builders::command::*;\nuse imap_proto::types::*;\n\n#[derive(Clone, Debug)]\npub enum Arg {\n    Num(u64),\n    Range(u64, u64),\n    RangeFrom(u64),\n    /// a range expression of any kind: 0 a..b, 1 a..=b, 2 a.., 3 ..b, 4 ..=b, 5 ..\n    Bounds(u8, u64, u64),\n    Kw(String),\n    Str(String),\n}\n\npub enum St {\n    Done(Command),\n");
     for (ty, st) in &states {
         r.push_str(&format!("    {}_{}({}<{}::{}>),\n", ty, st, ty, modname(ty), st));
     }
@@ -735,6 +761,11 @@ pub fn translate(repo: &Path) -> Output {
                     pre.push_str(&format!("if *a{} > u32::MAX as u64 {{ return Err(st); }} ", k));
                     args.push(format!("(*a{} as u32)..", k));
                 }
+                "RangeBounds<u32>" => {
+                    pats.push(format!("Arg::Bounds(k{}, a{}, b{})", k, k, k));
+                    pre.push_str(&format!("if *a{} > u32::MAX as u64 || *b{} > u32::MAX as u64 || *k{} > 5 {{ return Err(st); }} let (k{}, a{}, b{}) = (*k{}, *a{} as u32, *b{} as u32); ", k, k, k, k, k, k, k, k, k));
+                    args.push(format!("@B{}@", k));
+                }
                 "&str" => {
                     pats.push(format!("Arg::Str(a{})", k));
                     args.push(format!("a{}.as_str()", k));
@@ -750,11 +781,29 @@ pub fn translate(repo: &Path) -> Output {
         Some((pats.join(", "), pre, args.join(", ")))
     };
     let wrap = |ty: &str, st: &str, e: &str| if ty == "Command" { format!("St::Done({})", e) } else { format!("St::{}_{}({})", ty, st, e) };
+    // a call with a range-expression argument is one arm per kind of range (each arm has its own argument type)
+    fn expand_bounds(ok_expr: String) -> String {
+        match ok_expr.find("@B") {
+            None => ok_expr,
+            Some(p) => {
+                let e = ok_expr[p + 2..].find('@').unwrap() + p + 2;
+                let k = ok_expr[p + 2..e].to_string();
+                let ph = format!("@B{}@", k);
+                let forms = [format!("a{k}..b{k}", k = k), format!("a{k}..=b{k}", k = k), format!("a{k}..", k = k), format!("..b{k}", k = k), format!("..=b{k}", k = k), "..".to_string()];
+                let mut m = format!("match k{} {{ ", k);
+                for (i, f) in forms.iter().enumerate() {
+                    m.push_str(&format!("{} => {{ {} }} ", i, expand_bounds(ok_expr.replacen(&ph, &format!("({})", f), 1))));
+                }
+                m.push_str("_ => unreachable!() }");
+                m
+            }
+        }
+    }
     r.push_str("/// CommandBuilder::<name>(args)\npub fn start(name: &str, args: &[Arg]) -> Option<St> {\n    let st = ();\n    let r: Result<St, ()> = (|| {\n        match (name, args) {\n");
     let mut rust_problems = vec![];
     for c in &ctors {
         match conv(&c.params) {
-            Some((pat, pre, a)) => r.push_str(&format!("            (\"{}\", [{}]) => {{ {}Ok({}) }}\n", c.name, pat, pre, wrap(&c.ty, &c.state, &format!("CommandBuilder::{}({})", c.name, a)))),
+            Some((pat, pre, a)) => r.push_str(&format!("            (\"{}\", [{}]) => {{ {}{} }}\n", c.name, pat, pre, expand_bounds(format!("Ok({})", wrap(&c.ty, &c.state, &format!("CommandBuilder::{}({})", c.name, a)))))),
             None => rust_problems.push(format!("constructor {}: parameter type not supported", c.name)),
         }
     }
@@ -766,13 +815,13 @@ pub fn translate(repo: &Path) -> Output {
         for t in trans.iter().filter(|t| &t.ty == ty && &t.from == s) {
             match conv(&t.params) {
                 Some((pat, pre, a)) => r.push_str(&format!(
-                    "                (\"{}\", [{}]) => {{ {}let c = match st {{ St::{}_{}(c) => c, _ => unreachable!() }}; Ok({}) }}\n",
+                    "                (\"{}\", [{}]) => {{ {}let c = match st {{ St::{}_{}(c) => c, _ => unreachable!() }}; {} }}\n",
                     t.meth,
                     pat,
                     pre,
                     ty,
                     s,
-                    wrap(&t.ty, &t.to, &format!("c.{}({})", t.meth, a))
+                    expand_bounds(format!("Ok({})", wrap(&t.ty, &t.to, &format!("c.{}({})", t.meth, a))))
                 )),
                 None => rust_problems.push(format!("{}<{}>::{}: parameter type not supported", ty, s, t.meth)),
             }
